@@ -99,3 +99,65 @@ package index
 //@   loop 0 invariant continuous ==> effectiveDomainTR.Start <= iter.TimeRange().Start && iter.TimeRange().End < tr.End
 //@   loop 0 invariant p0 <= domain.SpecIterPos(iter) && domainLen + totalTraversed == SpecSum(i.DB, p0, domain.SpecIterPos(iter) + 1)
 //@   loop 0 invariant 0 <= p0 && 0 <= totalTraversed && totalTraversed <= int64(domain.SpecIterPos(iter) - p0) * 536870912
+
+//@ # ---- Stamp: the timestamp a given number of samples after a reference (C01 writer path, C10 auto steps)
+//@ # r reads the domain the iterator stands on
+//@ spec func readsDomain(db *domain.DB, it *domain.Iterator, r *domain.Reader) bool = r != nil && SpecCount(r) == SpecCnt(db, domain.SpecIterPos(it)) && (forall x int64 :: SpecStampAt(r, x) == SpecIdxStamp(db, domain.SpecIterPos(it), x))
+//@ # every domain of the index channel holds whole 8-byte timestamps (assumed of the stored data)
+//@ spec func SpecWholeStamps(db *domain.DB) bool = forall k int :: 0 <= k && k < domain.SpecDBLen(db) ==> int64(domain.SpecDBSizeAt(db, k)) % 8 == 0
+//@ func (i *Domain) approximateStamp(ctx context.Context, r *domain.Reader, iter *domain.Iterator, endOffset int64, effectiveDomainLen int64, upperTSByteOffset telem.Size, lowerTSByteOffset telem.Size) (a TimeStampApproximation, err error)
+//@   overflow off
+//@   pragma typed_heap
+//@   pragma opaque_func_values readStamp
+//@   requires i.DB != nil && iter != nil && domain.SpecIterWF(iter) && domain.SpecIterOK(iter) && domain.SpecIterValid(iter) && domain.SpecIterIdx(iter) == domain.SpecDBIdx(i.DB) && readsDomain(i.DB, iter, r)
+//@   requires SpecWholeStamps(i.DB)
+//@   requires upperTSByteOffset >= 0 && upperTSByteOffset % 8 == 0 && lowerTSByteOffset % 8 == 0 && lowerTSByteOffset >= -8
+//@   ensures  err == nil ==> a.Upper == SpecIdxStamp(i.DB, old(domain.SpecIterPos(iter)), int64(upperTSByteOffset) / 8)
+//@   ensures  err == nil && lowerTSByteOffset >= 0 ==> a.Lower == SpecIdxStamp(i.DB, old(domain.SpecIterPos(iter)), int64(lowerTSByteOffset) / 8)
+//@   ensures  err == nil && lowerTSByteOffset < 0 ==> old(domain.SpecIterPos(iter)) > 0 && a.Lower == SpecIdxStamp(i.DB, old(domain.SpecIterPos(iter)) - 1, SpecCnt(i.DB, old(domain.SpecIterPos(iter)) - 1) - 1)
+//@   modifies iter
+//@   assume_after "upperTS, err := readStamp(r, upperTSByteOffset)" err == nil ==> upperTS == SpecStampAt(r, int64(upperTSByteOffset) / 8)
+//@   assume_after "lowerTs, err := readStamp(r, lowerTSByteOffset)" err == nil ==> lowerTs == SpecStampAt(r, int64(lowerTSByteOffset) / 8)
+//@   assume_after "r, err = iter.OpenReader(ctx)" err == nil ==> readsDomain(i.DB, iter, r)
+//@   assume_after "lowerTS, err := readStamp(r, iter.Size()+lowerTSByteOffset)" err == nil ==> lowerTS == SpecStampAt(r, (int64(iter.Size()) + int64(lowerTSByteOffset)) / 8)
+//@ # ref lies in domain p, s of whose stamps are before it
+//@ spec func SpecRefAt(db *domain.DB, ref telem.TimeStamp, p int, s int64) bool = 0 <= p && p < domain.SpecDBLen(db) && domain.SpecDBDomainAt(db, p).Start <= ref && ref < domain.SpecDBDomainAt(db, p).End && SpecBefore(db, p, s, ref)
+//@ # the g-th stamp counted from the start of domain p is the j-th stamp of domain k
+//@ spec func SpecGlobal(db *domain.DB, p int, g int64, k int, j int64) bool = p <= k && k < domain.SpecDBLen(db) && j == g - SpecSum(db, p, k) && 0 <= j && j < SpecCnt(db, k)
+//@   pragma trigger
+//@ # forwardStamp, continuous policy, reference stored in the index: the result is exact and is the
+//@ # stamp `offset` samples after the reference, wherever in the contiguous domains that falls
+//@ func (i *Domain) forwardStamp(ctx context.Context, ref telem.TimeStamp, offset int64, continuous bool) (approx TimeStampApproximation, err error)
+//@   overflow off
+//@   pragma typed_heap
+//@   requires i.DB != nil && ref >= 0 && offset > 0 && SpecWholeStamps(i.DB) && domain.SpecDBLen(i.DB) <= 2147483648
+//@   ensures  err == nil && continuous ==> (forall p int, s int64 :: SpecRefAt(i.DB, ref, p, s) && s < SpecCnt(i.DB, p) && SpecIdxStamp(i.DB, p, s) == ref ==> (exists k int, j int64 :: SpecGlobal(i.DB, p, s + offset, k, j) && approx.Lower == SpecIdxStamp(i.DB, k, j) && approx.Upper == SpecIdxStamp(i.DB, k, j)))
+//@   hint_before "endOffset -= totalTraversed - domainLen" totalTraversed - domainLen == SpecSum(i.DB, p0, domain.SpecIterPos(iter)) && endOffset - (totalTraversed - domainLen) >= 0
+//@   hint_after "endOffset -= totalTraversed - domainLen" endOffset == startApprox.Upper + offset - SpecSum(i.DB, p0, domain.SpecIterPos(iter)) && 0 <= endOffset && endOffset < SpecCnt(i.DB, domain.SpecIterPos(iter))
+//@   hint_before "upperTSByteOffset := byteSize(endOffset)" startApprox.Lower == startApprox.Upper ==> SpecGlobal(i.DB, p0, startApprox.Upper + offset, domain.SpecIterPos(iter), endOffset)
+//@   assume_after "r, err := iter.OpenReader(ctx)" err == nil ==> readsDomain(i.DB, iter, r) && SpecCount(r) <= 1152921504606846975 && (forall x int64, y int64 :: 0 <= x && x < y && y < SpecCount(r) ==> SpecStampAt(r, x) < SpecStampAt(r, y))
+//@   assume_after "r, err = iter.OpenReader(ctx)" err == nil ==> readsDomain(i.DB, iter, r)
+//@   let_after "r, err := iter.OpenReader(ctx)" p0 int = domain.SpecIterPos(iter)
+//@   loop 0 modifies iter
+//@   loop 0 invariant domain.SpecIterOK(iter) && domain.SpecIterValid(iter) && domain.SpecIterWF(iter) && domain.SpecIterIdx(iter) == domain.SpecDBIdx(i.DB)
+//@   loop 0 invariant p0 <= domain.SpecIterPos(iter) && totalTraversed == SpecSum(i.DB, p0, domain.SpecIterPos(iter) + 1) && endOffset >= totalTraversed && endOffset == startApprox.Upper + offset
+//@ # zeroStamp: a stored reference is returned exactly
+//@ func (i *Domain) zeroStamp(ctx context.Context, ref telem.TimeStamp) (approx TimeStampApproximation, err error)
+//@   overflow off
+//@   pragma typed_heap
+//@   pragma opaque_func_values readStamp
+//@   requires i.DB != nil && ref >= 0 && ref < 9223372036854775807 && SpecWholeStamps(i.DB)
+//@   ensures  err == nil ==> (forall p int, s int64 :: SpecRefAt(i.DB, ref, p, s) && s < SpecCnt(i.DB, p) && SpecIdxStamp(i.DB, p, s) == ref ==> approx.Lower == ref && approx.Upper == ref)
+//@   assume_after "r, err = iter.OpenReader(ctx)" err == nil ==> readsDomain(i.DB, iter, r) && SpecCount(r) <= 1152921504606846975 && (forall x int64, y int64 :: 0 <= x && x < y && y < SpecCount(r) ==> SpecStampAt(r, x) < SpecStampAt(r, y))
+//@   assume_after "s, err := readStamp(r, byteSize(startApprox.Upper))" err == nil ==> s == SpecStampAt(r, startApprox.Upper)
+//@   assume_after "approx.Upper, err = readStamp(r, byteSize(startApprox.Upper))" err == nil ==> approx.Upper == SpecStampAt(r, startApprox.Upper)
+//@ # backward stamping (negative offsets) is not under contract
+//@ trusted func (i *Domain) backwardStamp(ctx context.Context, ref telem.TimeStamp, offset int64, continuous bool) (approx TimeStampApproximation, err error)
+//@   modifies nothing
+//@ # Stamp, continuous policy, non-negative offset, reference stored in the index: the exact
+//@ # timestamp `offset` samples after the reference
+//@ func (i *Domain) Stamp(ctx context.Context, ref telem.TimeStamp, offset int64, continuous bool) (approx TimeStampApproximation, err error)
+//@   requires i.DB != nil && ref >= 0 && ref < 9223372036854775807 && SpecWholeStamps(i.DB) && domain.SpecDBLen(i.DB) <= 2147483648
+//@   ensures  err == nil && offset == 0 ==> (forall p int, s int64 :: SpecRefAt(i.DB, ref, p, s) && s < SpecCnt(i.DB, p) && SpecIdxStamp(i.DB, p, s) == ref ==> approx.Lower == ref && approx.Upper == ref)
+//@   ensures  err == nil && continuous && offset > 0 ==> (forall p int, s int64 :: SpecRefAt(i.DB, ref, p, s) && s < SpecCnt(i.DB, p) && SpecIdxStamp(i.DB, p, s) == ref ==> (exists k int, j int64 :: SpecGlobal(i.DB, p, s + offset, k, j) && approx.Lower == SpecIdxStamp(i.DB, k, j) && approx.Upper == SpecIdxStamp(i.DB, k, j)))
+//@   modifies nothing
